@@ -76,6 +76,8 @@ class Gen:
         d = self.keys[4][1]
         for kn, k in (("k=1", 1), ("k=n-1", N - 1), ("k=n-71", N - 71), ("k=n-69", N - 69)):
             self.enc("enc", d, r.bytes(20), [k], "enc:d=rand:%s" % kn)
+        for j in range(2, 34, 2):
+            self.enc("enc", d, r.bytes(1 + j % 7), [N - j], "enc:d=rand:k=n-j")
         # DESIGN 5 #1 (C13): k = n-70 makes sm2_z256_point_mul_generator return infinity
         self.enc("enc", d, r.bytes(20), [N - 70], "enc:nonce=n-70")
         self.enc("doenc", d, r.bytes(33), [1 + self.rnd(N - 1)], "doenc:k=rand")
@@ -167,6 +169,11 @@ class Gen:
             self.sym.append((len(self.cases), len(self.cases) + 1))
             self.ecdh(da, unc(self.pub[db]), "ecdh:valid:uncompressed:A")
             self.ecdh(db, unc(self.pub[da]), "ecdh:valid:uncompressed:B")
+        # scalars just below n: the windowed sm2_z256_point_mul reaches its equal-x / doubling and
+        # inverse-point branches only for such structured scalars (d = n-6 adds R to itself)
+        peer = unc(self.pub[self.keys[4][1]])
+        for j in range(2, 41 if not self.thorough else 130):
+            self.ecdh(N - j, peer, "ecdh:d=n-j:j%%8=%d" % (j % 8))
         da, db = pairs[0]
         self.ecdh(da, comp(self.pub[db]), "ecdh:valid:compressed")
         Pn = (self.pub[db][0], P_ - self.pub[db][1])
